@@ -128,6 +128,7 @@ def wake_sites(fx):
             s.target = dg.expr(c["args"][1]) if tgt == WAKE else ALL
             s.conds = _conds_at(body, dg, b)
             s.via = None
+            s.in_loop = util.in_loop(body, b)
             direct.setdefault(f["key"], []).append(s)
     def is_context(key):
         return channel_of(fx, key) is not None and entry_of(key) is not None
@@ -155,6 +156,7 @@ def wake_sites(fx):
             t.target = s.target if s.target == ALL else subst(s.target, pmap)
             t.conds = _conds_at(body, dg, b) + [(op, subst(l, pmap), subst(r, pmap), pol) for (op, l, r, pol) in s.conds]
             t.via = s.key if s.via is None else s.via
+            t.in_loop = s.in_loop or util.in_loop(body, b)
             place(t, depth + 1)
     for k in sorted(direct):
         for s in direct[k]: place(s, 0)
@@ -442,7 +444,7 @@ def _classify(ctx, fx, s, tag):
     loc = body.loc(s.b)
     desc = f"`{' && '.join(('' if p else '!') + '(' + _short(show(l)) + ' ' + o + ' ' + _short(show(r)) + ')' for (o, l, r, p) in s.conds if not sentinel_test(l, r)) or 'always'}` -> wake({_short(show(s.target))})"
     if kind == "log":
-        ok = listener and not at and util.in_loop(body, s.b)
+        ok = listener and not at and (s.in_loop or s.target == ALL)
         return ("A" if ok else "U", "unconditional wake of every live listener after publication" if ok else "log channel wake is not the unconditional sweep", desc)
     if not at and s.target == ALL and not [c for c in s.conds if not sentinel_test(c[1], c[2])]:
         _sweep_shape(ctx, fx)
